@@ -49,31 +49,53 @@ def isNetlocDelim (c : Char) : Bool := c == '/' || c == '?' || c == '#'
 
 def allAscii (s : Str) : Bool := s.all fun c => c.toNat < 128
 
-/-- `urlsplit(url)`; `.error` carries the exception class -/
-def urlsplit (o : UrlOpaque) (url : Str) : Except String Split :=
-  let url := url.dropWhile isC0OrSpace
-  let url := url.filter fun c => !isTabCrLf c
-  -- scheme
-  let (scheme, url) :=
-    match partitionChar ':' url with
-    | (pre, some post) =>
-      if !pre.isEmpty && (pre.head?.map isAsciiAlpha).getD false && pre.all isSchemeChar
-      then (pre.map asciiLower, post) else ([], url)
-    | (_, none) => ([], url)
-  -- netloc
-  let hasNetloc := (['/', '/'] : Str).isPrefixOf url
-  let netloc := if hasNetloc then (url.drop 2).takeWhile (fun c => !isNetlocDelim c) else []
-  let url := if hasNetloc then (url.drop 2).dropWhile (fun c => !isNetlocDelim c) else url
+/-- `url.lstrip(C0 control or space)` and removal of TAB / CR / LF -/
+def cleanUrl (url : Str) : Str := (url.dropWhile isC0OrSpace).filter fun c => !isTabCrLf c
+
+/-- the scheme test: non-empty, starts with an ASCII letter, only `scheme_chars` -/
+def validScheme (pre : Str) : Bool :=
+  !pre.isEmpty && (pre.head?.map isAsciiAlpha).getD false && pre.all isSchemeChar
+
+/-- `(scheme, rest)` -/
+def splitScheme (url : Str) : Str × Str :=
+  match partitionChar ':' url with
+  | (pre, some post) => if validScheme pre then (pre.map asciiLower, post) else ([], url)
+  | (_, none) => ([], url)
+
+/-- `_splitnetloc(url, 2)` when `url[:2] == "//"`: `(netloc, rest)`, else `([], url)` -/
+def splitNetloc (url : Str) : Str × Str :=
+  if (['/', '/'] : Str).isPrefixOf url then
+    ((url.drop 2).takeWhile (fun c => !isNetlocDelim c), (url.drop 2).dropWhile (fun c => !isNetlocDelim c))
+  else ([], url)
+
+/-- the bracket checks of `urlsplit` on a netloc: `false` = ValueError -/
+def bracketsOk (o : UrlOpaque) (netloc : Str) : Bool :=
   let lb := netloc.contains '['
   let rb := netloc.contains ']'
-  if hasNetloc && (lb != rb) then .error "ValueError"
-  else if hasNetloc && lb && rb &&
-      !o.bracketOk (partitionChar ']' ((partitionChar '[' netloc).2.getD [])).1 then .error "ValueError"
+  if lb != rb then false
+  else if lb then o.bracketOk (partitionChar ']' ((partitionChar '[' netloc).2.getD [])).1
+  else true
+
+/-- `_checknetloc` -/
+def netlocOk (o : UrlOpaque) (netloc : Str) : Bool :=
+  netloc.isEmpty || allAscii netloc || o.nfkcOk netloc
+
+/-- `s.split(d, 1)` when `d in s`, else `(s, "")` -/
+def splitFirst (d : Char) (s : Str) : Str × Str :=
+  match partitionChar d s with
+  | (a, some b) => (a, b)
+  | (a, none) => (a, [])
+
+/-- `urlsplit(url)`; `.error` carries the exception class -/
+def urlsplit (o : UrlOpaque) (url : Str) : Except String Split :=
+  let s := splitScheme (cleanUrl url)
+  let n := splitNetloc s.2
+  if !bracketsOk o n.1 then .error "ValueError"
   else
-    let (url, fragment) := match partitionChar '#' url with | (a, some b) => (a, b) | (a, none) => (a, [])
-    let (url, query) := match partitionChar '?' url with | (a, some b) => (a, b) | (a, none) => (a, [])
-    if !(netloc.isEmpty || allAscii netloc || o.nfkcOk netloc) then .error "ValueError"
-    else .ok { scheme := scheme, netloc := netloc, path := url, query := query, fragment := fragment }
+    let f := splitFirst '#' n.2
+    let q := splitFirst '?' f.1
+    if !netlocOk o n.1 then .error "ValueError"
+    else .ok { scheme := s.1, netloc := n.1, path := q.1, query := q.2, fragment := f.2 }
 
 /-- `urllib.parse.uses_netloc` (with `itms-services`, which werkzeug.urls appends when missing) -/
 def usesNetloc : List String :=
@@ -120,7 +142,7 @@ def hostinfo (netloc : Str) : Str × Option Str :=
   (hp.1, if hp.2.isEmpty then none else some hp.2)
 
 /-- `int(port)` for ASCII digits -/
-def digitsToNat (ds : Str) : Nat := ds.foldl (fun acc c => acc * 10 + (c.toNat - 48)) 0
+def digitsToNat (ds : Str) : Nat := Nat.ofDigitChars 10 ds 0
 
 /-- `SplitResult.port`; `.error "ValueError"` for a non-numeric or out-of-range port -/
 def portOf (netloc : Str) : Except String (Option Nat) :=
